@@ -114,7 +114,7 @@ def p_parse(prog, case, budget):
             if len(samples) < 1:
                 md = model_of(r.M)
                 if md is not None: samples.append(dict(function='from_shared_str+from_message', line=(bytes(pre) + model_bytes(md, bs)).decode('utf-8', 'replace'), outcome='Ok' if r.value.variant == 0 else 'Err'))
-    explore(prog, run, on, stats=st, timeout_ms=budget['solver_ms'], max_steps=budget['steps'], max_paths=budget['paths'],
+    explore(prog, run, on, stats=st, prefix=case.get('prefix'), timeout_ms=budget['solver_ms'], max_steps=budget['steps'], max_paths=budget['paths'],
             deadline=(time.time() + budget['case_s']) if budget.get('case_s') else None)
     return dict(stats=st, findings=findings, samples=samples, nontrivial=nontriv[0], case=case['name'])
 
@@ -136,7 +136,7 @@ def p_fn1(prog, case, budget):
             findings.append(dict(kind='panic', site=case['fn'] + ': ' + span_text(prog, r.value.site), what=r.value.msg, predicate='pure-panic',
                                  witness=dict(fn=case['fn'], arg=model_bytes(md, bs).hex(), profile=prog.profile)))
         elif r.kind == 'ok': nontriv[0] += 1
-    explore(prog, run, on, stats=st, timeout_ms=budget['solver_ms'], max_steps=budget['steps'], max_paths=budget['paths'],
+    explore(prog, run, on, stats=st, prefix=case.get('prefix'), timeout_ms=budget['solver_ms'], max_steps=budget['steps'], max_paths=budget['paths'],
             deadline=(time.time() + budget['case_s']) if budget.get('case_s') else None)
     return dict(stats=st, findings=findings, samples=samples, nontrivial=nontriv[0], case=case['name'])
 
